@@ -97,6 +97,27 @@ def _normalise_trailing_ifs(tree: ast.Module) -> None:
         if isinstance(n, ast.For) and not n.orelse:
             n.body = conv(n.body)
 
+    def fconv(body):
+        """the same for a function body whose last statement is `if c: <rest>`: `if not c: return` + <rest>"""
+        if not body:
+            return body
+        last = body[-1]
+        if isinstance(last, ast.If) and not last.orelse and last.body and not isinstance(last.body[-1], (ast.Continue, ast.Break, ast.Return, ast.Raise, ast.Pass)) \
+                and not any(isinstance(x, ast.NamedExpr) for x in ast.walk(last.test)):
+            t = last.test.operand if isinstance(last.test, ast.UnaryOp) and isinstance(last.test.op, ast.Not) else ast.UnaryOp(op=ast.Not(), operand=last.test)
+            ast.copy_location(t, last.test)
+            ret = ast.Return(value=None)
+            ast.copy_location(ret, last)
+            guard = ast.If(test=t, body=[ret], orelse=[])
+            ast.copy_location(guard, last)
+            guard.end_lineno = getattr(last.test, "end_lineno", last.lineno)
+            guard.synthetic_guard = True
+            return body[:-1] + [guard] + fconv(list(last.body))
+        return body
+    for n in ast.walk(tree):
+        if isinstance(n, (ast.FunctionDef, ast.AsyncFunctionDef)):
+            n.body = fconv(n.body)
+
 
 def _normalise_returned_temps(tree: ast.Module) -> None:
     """`t = E` immediately followed by `return t`, with t bound once and read once in the function, is `return E`."""
